@@ -40,6 +40,9 @@ RO           == [k |-> "O", e |-> 0, who |-> 0, at |-> 0, n |-> 0, m |-> 0]
 XActParseError == -1   \* parse_error thrown by an action
 XActForeign    == -3   \* harness exception, not derived from std::exception
 XDepth         == -5   \* limit_depth: "maximum parser rule nesting depth exceeded"
+XBytes         == -6   \* limit_bytes: "maximum allowed rule consumption reached"
+XCheck         == -7   \* check_bytes: "maximum allowed rule consumption exceeded"
+XLimits        == {XDepth, XBytes, XCheck}
 
 -----------------------------------------------------------------------------
 (* expressions: records with fields op, kids (sequence of expressions),    *)
@@ -69,8 +72,10 @@ Tail1(s) == SubSeq(s, 2, Len(s))
 
 -----------------------------------------------------------------------------
 (* bytes *)
-By(o)  == W[o + 1]                                   \* unsigned value of the byte at offset o
-SBy(o) == IF W[o + 1] > 127 THEN W[o + 1] - 256 ELSE W[o + 1]   \* as a (signed) char
+\* total: an offset outside the data (possible only when an observed logical end is itself wrong) reads as a
+\* value no rule accepts, so that the contract reports the bound violation instead of the evaluation failing
+By(o)  == IF o >= 0 /\ o < Len(W) THEN W[o + 1] ELSE -1000      \* unsigned value of the byte at offset o
+SBy(o) == IF o >= 0 /\ o < Len(W) THEN (IF W[o + 1] > 127 THEN W[o + 1] - 256 ELSE W[o + 1]) ELSE -1000   \* as a (signed) char
 SeqSet(s) == {s[i] : i \in DOMAIN s}
 
 Fold(b) == IF b >= 65 /\ b <= 90 THEN b + 32 ELSE b   \* ASCII case folding of a byte
@@ -123,7 +128,7 @@ U8(p, lim) ==
 -----------------------------------------------------------------------------
 (* positions (C06): a function of the consumed prefix only                 *)
 EolCh(eol) == IF eol \in {1, 4} THEN 13 ELSE 10
-EolIdx(o, ch) == {i \in 1..o : W[i] = ch}
+EolIdx(o, ch) == {i \in 1..(IF o <= Len(W) THEN o ELSE Len(W)) : W[i] = ch}
 MaxOf(S) == CHOOSE x \in S : \A y \in S : y <= x
 PosByte(o, c) == c.ib + o
 PosLine(o, c) == c.il + Cardinality(EolIdx(o, EolCh(c.eol)))
@@ -173,8 +178,8 @@ IaCalled(pp, len, zero) ==
 \* which exceptions a try_catch catches: p[1] = 0 any, 1 parse_error_base, 2 std::exception, 3 foreign_error
 Catches(kind, who) ==
    CASE kind = 0 -> TRUE
-     [] kind = 1 -> who > 0 \/ who \in {XActParseError, XDepth}
-     [] kind = 2 -> who > 0 \/ who \in {XActParseError, XDepth}
+     [] kind = 1 -> who > 0 \/ who \in {XActParseError} \cup XLimits
+     [] kind = 2 -> who > 0 \/ who \in {XActParseError} \cup XLimits
      [] kind = 3 -> who = XActForeign
      [] OTHER    -> FALSE
 
@@ -264,10 +269,30 @@ RECURSIVE DenX(_, _, _, _), Den(_, _, _, _), SeqK(_, _, _, _, _), SorK(_, _, _, 
           StarK(_, _, _, _), MustK(_, _, _, _, _),
           StarPartialK(_, _, _, _), StarStrictK(_, _, _, _), RematchK(_, _, _, _, _, _), RawUntilK(_, _, _, _, _, _)
 
+\* limits attached through action family 4 (contrib/limit_depth.hpp, limit_bytes.hpp, check_bytes.hpp), C18:
+\*   lim = kind * 1000 + N;  1 limit_depth< N >, 2 limit_bytes< N >, 3 check_bytes< N >
+LimKind(n, c) == IF c.fam = 4 THEN Nodes[n].lim \div 1000 ELSE 0
+LimN(n)       == Nodes[n].lim % 1000
+Min2(a, b)    == IF a <= b THEN a ELSE b
+
 \* a node: its body, then its own action
 Den(n, p, c, d) ==
    IF d = 0 THEN RL
-   ELSE WithAct(n, p, DenX(Lift(n), p, c, d - 1), c)
+   ELSE LET lk == LimKind(n, c) IN
+        CASE lk = 1 /\ Visible(n, c) ->
+                \* a guarded rule never runs nested more than N guarded levels deep
+                IF c.dep + 1 > LimN(n) THEN RX(XDepth, p)
+                ELSE DenX(Lift(n), p, [c EXCEPT !.dep = @ + 1], d - 1)
+          [] lk = 2 ->
+                \* the guarded rule sees at most N bytes from where its match starts; a match that uses all of
+                \* them while more input exists is reported as a global failure
+                LET lim2 == Min2(c.lim, p + LimN(n))
+                    r == DenX(Lift(n), p, [c EXCEPT !.lim = lim2], d - 1)
+                IN IF r.k = "T" /\ r.e = lim2 /\ lim2 # c.lim THEN RX(XBytes, r.e) ELSE r
+          [] lk = 3 ->
+                LET r == DenX(Lift(n), p, c, d - 1) IN
+                IF r.k = "T" /\ r.e - p > LimN(n) THEN RX(XCheck, r.e) ELSE r
+          [] OTHER -> WithAct(n, p, DenX(Lift(n), p, c, d - 1), c)
 
 SeqK(ks, i, p, c, d) ==
    IF i > Len(ks) THEN RT(p)
